@@ -119,6 +119,52 @@ Theorem ValueApi_parse_lazy_value_keeps_encodings : forall v, wfb v = true -> to
 Proof. exact parse_lazy_value_enc. Qed.
 Print Assumptions ValueApi_parse_lazy_value_keeps_encodings.
 
+(* ---- From<f32>: the widening is exact (values in units of 2^-149 and 2^-1074), infinities and NaNs stay what they are ---- *)
+Theorem ValueApi_from_f32_is_exact : forall b, f32_exp b <> 255 ->
+  f_scaled (f32_to_f64 b) = (f32_scaled b * 2 ^ 925)%Z /\ f_is_nan (f32_to_f64 b) = false /\ f_is_inf (f32_to_f64 b) = false.
+Proof. exact f32_to_f64_exact. Qed.
+Print Assumptions ValueApi_from_f32_is_exact.
+
+Theorem ValueApi_from_f32_nonfinite : forall b, f32_exp b = 255 ->
+  (f32_man b = 0 -> f32_to_f64 b = if f32_sign b then F_NEG_INF else F_INF) /\
+  (f32_man b <> 0 -> f_is_nan (f32_to_f64 b) = true /\ f_sign (f32_to_f64 b) = f32_sign b).
+Proof. exact f32_to_f64_nonfinite. Qed.
+Print Assumptions ValueApi_from_f32_nonfinite.
+
+(* ---- impl Display for Value against to_string ----
+   display_safe v (ValueApi.v): every STRING of v consists of printable ASCII (quote and backslash included), TAB, LF, CR and
+   non-ASCII chars that <str as Debug> does not escape (DebugTable.v); every KEY of bytes >= 0x20 other than quote and backslash.
+   plain_value v: strings and keys of printable ASCII without quote and backslash.  pf is the float printer (ryu), a parameter. *)
+Theorem ValueApi_display_agrees_with_to_string : forall pf v, display_safe v = true -> display pf v = to_string_t pf v.
+Proof. exact display_agrees_with_to_string. Qed.
+Print Assumptions ValueApi_display_agrees_with_to_string.
+
+Theorem ValueApi_display_agrees_with_to_string_on_plain : forall pf v, plain_value v = true -> display pf v = to_string_t pf v.
+Proof. exact display_agrees_with_to_string_on_plain. Qed.
+Print Assumptions ValueApi_display_agrees_with_to_string_on_plain.
+
+(* ... and with the byte walker: to_string of the encoding prints what Display prints for the decoded tree; with the
+   correspondence's placeholder printer, for the tree itself *)
+Theorem ValueApi_display_is_to_string_of_the_encoding : forall pf v, wfb v = true -> top_ok v -> display_safe v = true ->
+  to_string_w' pf (enc v) = Ok (display pf (normalise v)).
+Proof. exact display_is_to_string_of_the_encoding. Qed.
+Print Assumptions ValueApi_display_is_to_string_of_the_encoding.
+
+Theorem ValueApi_display_t_is_to_string_w : forall v, wfb v = true -> top_ok v -> display_safe v = true ->
+  to_string_w (enc v) = Ok (display_t v).
+Proof. exact display_t_is_to_string_w. Qed.
+Print Assumptions ValueApi_display_t_is_to_string_w.
+
+(* where they differ (an observation, no listed property speaks about Display): a key holding a quote makes Display print text that
+   is not JSON -- the crate's own parser does not read it back --, while to_string escapes it *)
+Example ValueApi_display_differs :
+  let v := VObj [([97; 34; 98], VNum (NUInt 1))] in
+  wfb v = true /\
+  display_t v = [123; 34; 97; 34; 98; 34; 58; 49; 125] /\
+  to_string_t float_placeholder v = [123; 34; 97; 92; 34; 98; 34; 58; 49; 125] /\
+  JsonText.parse_value (display_t v) <> Ok v /\ JsonText.parse_value (to_string_t float_placeholder v) = Ok v.
+Proof. exact display_differs_key_with_quote. Qed.
+
 (* not vacuous *)
 Example ValueApi_helpers_example :
   let v := VObj [([65; 98], VArr [VNum (NInt 0); VStr [120]]); ([97], VNull)] in
